@@ -2583,11 +2583,12 @@ class CompressedCertificate(Certificate):
         parser = Parser(writer.bytes)
         super(CompressedCertificate, self).parse(parser)
 
-        if not self._compressed_msg:
-            certificate_msg = super(CompressedCertificate, self).write()
-            certificate_msg = certificate_msg[4:]
-            self._uncompressed_msg_len = len(certificate_msg)
-            self._compressed_msg = self._compress(certificate_msg)
+        # (a compressed form cached by an earlier create() or parse() on
+        # this object belongs to other contents)
+        certificate_msg = super(CompressedCertificate, self).write()
+        certificate_msg = certificate_msg[4:]
+        self._uncompressed_msg_len = len(certificate_msg)
+        self._compressed_msg = self._compress(certificate_msg)
 
         return self
 
